@@ -158,7 +158,8 @@ def _setup_job(spec, tier, depth2, part):
                             'rows_returned': sg[1]})
     # depth 2: every distinct state reached by a db operation, all reads
     if depth2:
-        reads = [o for o in dbops if o.mode]
+        # quick: all reads on the new state; thorough: the whole alphabet
+        reads = dbops if tier == 'thorough' else [o for o in dbops if o.mode]
         for op1, who1 in changing:
             W.run_db_op(s, op1, who1)
             first = {'op': op1.id, 'who': who1}
@@ -283,6 +284,7 @@ def main(tier):
     counters = collections.Counter()
     breaches, reach, unexpected = [], set(), []
     seen_unexpected = set()
+    timing = collections.Counter()
     for job, r in zip(jobs, results):
         if r is None or r.get('skipped'):
             harness.append({'why': 'job not run before the deadline',
@@ -300,6 +302,8 @@ def main(tier):
         jmax = r['counters'].pop('_job_seconds_max', 0)
         counters['_job_seconds_max'] = max(counters['_job_seconds_max'],
                                            jmax)
+        for k in [k for k in r['counters'] if k.startswith('_cpu_s.')]:
+            timing[k[7:]] += r['counters'].pop(k)
         counters.update(r['counters'])
         breaches.extend(r['breaches'])
         reach.update(r['reach'])
@@ -380,8 +384,11 @@ def main(tier):
                            'M-private} x share {none, pending, accepted, '
                            'rejected} (shares for workflows only)',
             'actors': 'owner A, other B, member M, admin ADM',
-            'depth': 'setup prefix (1-4 operations) + 1 operation; + 1 '
-                     'more read for the setups with depth 2',
+            'depth': 'setup prefix (1-4 operations) + 1 operation; for the '
+                     'setups with depth 2 + 1 more operation after every '
+                     'distinct state reached by a db operation (quick: '
+                     'every read; thorough: every db operation, every '
+                     'expression and every REST read)',
             'setups_with_depth_2': sum(1 for j in jobs
                                        if j[0] == 'setup' and j[3]),
             'engine_cases': len(E.engine_cases()),
@@ -394,6 +401,7 @@ def main(tier):
         'db_level_weaknesses_not_tenant_reachable': informational,
         'unexpected_exceptions': unexpected[:12],
         'violation_groups': len(rep.viol),
+        'worker_seconds_per_level': {k: int(v) for k, v in timing.items()},
     }
     rep.validated = rep.validated
     for h in harness:
